@@ -100,7 +100,17 @@ impl Server {
             cmd.arg("--appendonly");
         }
         if let Some(p) = &opts.password {
-            cmd.arg("--requirepass").arg(p);
+            // Both ways a password can be set are exercised: on the command line, and (for
+            // passwords a configuration file can spell, every second one) by a requirepass line
+            // in a configuration file with nothing on the command line.
+            let conf_safe = !p.is_empty() && p.bytes().all(|b| b.is_ascii_alphanumeric());
+            if conf_safe && p.len() % 2 == 0 {
+                let conf = dir.join("ferrous.conf");
+                std::fs::write(&conf, format!("# written by the harness\nrequirepass {}\n", p)).map_err(|e| e.to_string())?;
+                cmd.arg("--config").arg(&conf);
+            } else {
+                cmd.arg("--requirepass").arg(p);
+            }
         }
         let errf = std::fs::OpenOptions::new()
             .create(true)
@@ -254,30 +264,35 @@ impl Client {
 
 /// Entry point of `check serve ...` (runs forever).
 pub fn serve_main(args: &[String]) -> ! {
-    let mut cfg = ferrous::Config::default();
-    cfg.network.bind_addr = "127.0.0.1".to_string();
+    // The configuration is assembled the way ferrous' own main does it: defaults or a
+    // configuration file, then the command-line overrides merged by Config::apply_cli_args.
+    let mut cli = ferrous::config::CliArgs::default();
+    cli.bind = Some("127.0.0.1".to_string());
     let mut i = 0;
     while i < args.len() {
         match args[i].as_str() {
             "--port" => {
-                cfg.network.port = args[i + 1].parse().expect("port");
+                cli.port = Some(args[i + 1].parse().expect("port"));
                 i += 2;
             }
             "--dir" => {
-                cfg.rdb.dir = args[i + 1].clone();
-                cfg.aof.dir = args[i + 1].clone();
+                cli.dir = Some(args[i + 1].clone());
                 i += 2;
             }
             "--dbfilename" => {
-                cfg.rdb.filename = args[i + 1].clone();
+                cli.dbfilename = Some(args[i + 1].clone());
                 i += 2;
             }
             "--appendonly" => {
-                cfg.aof.enabled = true;
+                cli.appendonly = true;
                 i += 1;
             }
             "--requirepass" => {
-                cfg.network.password = Some(args[i + 1].clone());
+                cli.password = Some(args[i + 1].clone());
+                i += 2;
+            }
+            "--config" => {
+                cli.config = Some(std::path::PathBuf::from(&args[i + 1]));
                 i += 2;
             }
             other => {
@@ -286,6 +301,17 @@ pub fn serve_main(args: &[String]) -> ! {
             }
         }
     }
+    let mut cfg = match &cli.config {
+        Some(path) => match ferrous::Config::from_file(path.clone()) {
+            Ok(c) => c,
+            Err(e) => {
+                eprintln!("Error loading configuration: {}", e);
+                std::process::exit(1);
+            }
+        },
+        None => ferrous::Config::default(),
+    };
+    cfg.apply_cli_args(cli);
     match ferrous::Server::from_config(cfg) {
         Ok(mut s) => {
             if let Err(e) = s.run() {
